@@ -56,6 +56,10 @@ def wrap_code(w: str, inner: str, i: int) -> str:
         return enter + f"local ok{i}, e{i} = pcall(function()\n{inner}\nend)\nif not ok{i} then ev('caught', {i}, tostring(e{i})) end"
     if w == "xpcall":
         return enter + f"local ok{i}, e{i} = xpcall(function()\n{inner}\nend, function(e) return e end)\nif not ok{i} then ev('caught', {i}, tostring(e{i})) end"
+    if w == "xpcallh":   # the handler keeps the message away from whoever inspects the caught value
+        return enter + f"local ok{i}, e{i} = xpcall(function()\n{inner}\nend, function(e) return {{m = e}} end)\nif not ok{i} then ev('caught', {i}, tostring(type(e{i}) == 'table' and e{i}.m or e{i})) end"
+    if w == "xlooph":
+        return enter + f"while true do\nlocal ok{i}, e{i} = xpcall(function()\n{inner}\nend, function(e) return {{m = e}} end)\nif not ok{i} then ev('caught', {i}, tostring(type(e{i}) == 'table' and e{i}.m or e{i})) end\nend"
     if w == "ploop":
         return enter + f"while true do\nlocal ok{i}, e{i} = pcall(function()\n{inner}\nend)\nif not ok{i} then ev('caught', {i}, tostring(e{i})) end\nend"
     if w == "xloop":
